@@ -64,6 +64,9 @@ class Opaque:
     def __bool__(self):
         raise Undecided(f"truth value of opaque {self.name}")
 
+    def __getitem__(self, i):
+        return Opaque(f"{self.name}[]")
+
     def __repr__(self):
         return f"Opaque({self.name})"
 
@@ -95,6 +98,17 @@ class SuperRef:
     def __init__(self, obj, after_cls):
         self.obj = obj
         self.after = after_cls
+
+
+class Native:
+    """A callable implemented by the analysis itself: fn(args, kwargs)."""
+
+    def __init__(self, fn, name="native"):
+        self.fn = fn
+        self.name = name
+
+    def __call__(self, args, kwargs):
+        return self.fn(args, kwargs)
 
 
 class ModuleRef:
@@ -344,7 +358,11 @@ class Interp:
                     try:
                         return self.repo.fold(m2.consts[nm], m2)
                     except Unfoldable:
-                        pass
+                        return self.eval(m2.consts[nm], {"__mod__": m2, "__class__": None})
+                if nm in m2.classes:
+                    return ClassRef(m2.classes[nm])
+                if nm in m2.functions:
+                    return BoundMethod(None, m2.functions[nm])
         if e.id in ("struct", "time", "asyncio", "logging", "re", "math"):
             return ModuleRef(e.id)
         raise Undecided(f"unbound name {e.id}")
@@ -393,6 +411,8 @@ class Interp:
             return Builtin(f"{base.name}.{attr}")
         if isinstance(base, (str, bytes, list, tuple, dict)):
             return PyMethod(base, attr)
+        if hasattr(base, "interp_getattr"):
+            return base.interp_getattr(attr)
         if isinstance(base, Opaque):
             return Opaque(f"{base.name}.{attr}")
         raise Undecided(f"attribute {attr} of {type(base).__name__}")
@@ -437,6 +457,8 @@ class Interp:
             return obj
         if isinstance(callee, PyMethod):
             return callee(*args, **kwargs)
+        if isinstance(callee, Native):
+            return callee(args, kwargs)
         if isinstance(callee, Builtin):
             return callee(self, args, kwargs, node)
         if isinstance(callee, Opaque):
@@ -651,6 +673,16 @@ class PyMethod:
         self.attr = attr
 
     def __call__(self, *args, **kwargs):
+        if self.attr == "join" and isinstance(self.base, bytes) and args and isinstance(args[0], (list, tuple)):
+            if any(not isinstance(x, (bytes, bytearray)) for x in args[0]):
+                from .symbytes import SymBytes
+
+                if self.base != b"":
+                    raise Undecided("join with a separator over symbolic bytes")
+                out = SymBytes([])
+                for x in args[0]:
+                    out = out + SymBytes.of(x)
+                return out
         for a in args:
             if isinstance(a, Opaque):
                 return Opaque(f"{self.attr}()")
@@ -688,6 +720,8 @@ class Builtin:
                           "list": list, "tuple": tuple, "dict": dict}.get(one.name)
                     if py is not None and isinstance(v, py):
                         return True
+                    if py is bytes and hasattr(v, "cells"):
+                        return True
                 elif isinstance(one, ClassRef) and isinstance(v, Obj) and v.cls is not None:
                     if any(k is one.cls for k in interp.repo.mro(v.cls)):
                         return True
@@ -702,6 +736,8 @@ class Builtin:
                 return int(v, *args[1:]) if n == "int" else float(v)
             except (ValueError, TypeError) as e:
                 raise PyRaise(f"ValueError: {e}")
+        if n == "len" and args and hasattr(args[0], "length"):
+            return args[0].length()
         if n in ("max", "min", "len", "abs", "str", "bool", "list", "tuple", "dict", "bytes",
                  "sorted", "hex", "round", "set"):
             if any(isinstance(a, Opaque) for a in args):
@@ -718,6 +754,8 @@ class Builtin:
             return list(zip(*args))
         if n in ("Exception", "ValueError", "RuntimeError", "OverflowError"):
             return Opaque(n)
+        if n == "len" and args and hasattr(args[0], "length"):
+            return args[0].length()
         if n == "struct.unpack":
             fmt, data = args
             if hasattr(data, "unpack"):
@@ -736,10 +774,9 @@ class Builtin:
                     return _struct.pack(fmt, *vals)
                 except _struct.error as e:
                     raise PyRaise(f"struct.error: {e}")
-            for v in vals:
-                if hasattr(v, "pack"):
-                    return v.pack(fmt)
-            raise Undecided("struct.pack of non-constant")
+            from .symbytes import SymBytes
+
+            return SymBytes.pack(fmt, list(vals))
         if n == "struct.calcsize":
             return _struct.calcsize(args[0])
         if n.startswith("time."):
